@@ -116,6 +116,9 @@ func VH_C05_extract() {
 		so := vndConcretize(start - int(base))
 		q := vndConcretize(qty)
 		vndAssert(so >= 0 && so+q <= vhImageRegs, "request window lies inside the modelled memory")
+		for _, f := range r.Fields {
+			vndAssert(int(f.Address) >= start && int(f.Address)-start+vhFieldSize(f) <= q, "the request asks for every register of every field attached to it")
+		}
 		m := q - trunc
 		if m < 1 {
 			m = 1
